@@ -474,7 +474,7 @@ func GenHistCase(t *rapid.T) HistCase {
 			}
 			c.Events = append(c.Events, Event{Kind: "seq", Seq: rapid.SampledFrom([][]int{{'4'}, {'x'}, {127}, {27}, {'\r'}}).Draw(t, "modeafter")})
 		default:
-			digits := rapid.SampledFrom([]string{"1", "1", "2", "2", "3", "0", "00", "01", "9", "12", "99999999999999999999", "18446744073709551617", "007"}).Draw(t, "digits")
+			digits := rapid.SampledFrom([]string{"1", "1", "2", "2", "3", "3", "4", "5", "6", "0", "00", "01", "9", "12", "99999999999999999999", "18446744073709551617", "007"}).Draw(t, "digits")
 			end := rapid.SampledFrom([]int{'.', '.', '\r', '\r', 'j', 27, 127, ' ', 'x', ':'}).Draw(t, "numberend")
 			c.Events = append(c.Events, Event{Kind: "number", Text: digits, End: end})
 		}
